@@ -1,9 +1,10 @@
 #!/bin/sh
 # Developer regression: every confirmed seeded defect must be reported under its property id,
-# every behaviour-preserving refactoring must leave all 20 checks silent.
+# every behaviour-preserving refactoring must leave all 20 checks silent.  8 scratch worktrees in parallel.
 cd "$(dirname "$0")/.." || exit 2
+J=${JOBS:-8}
 echo "== seeded defects (expect CAUGHT; C08-m1 is out of domain and expected silent)"
-python3-vt tools/eval_seeded.py seeded/* 2>&1 | grep -v "CAUGHT" | cut -c1-300
+ls -d seeded/*/ | xargs -P "$J" -n 16 python3-vt tools/eval_seeded.py 2>&1 | grep -v "CAUGHT" | cut -c1-300
 echo "== benign refactorings (expect SILENT)"
-python3-vt tools/eval_benign.py benign/* 2>&1 | grep -v "SILENT" | cut -c1-300
+ls -d benign/*/ | xargs -P "$J" -n 10 python3-vt tools/eval_benign.py 2>&1 | grep -v "SILENT" | cut -c1-300
 echo "== done"
